@@ -7,16 +7,6 @@ From TD Require Model.C04_Tree.
 Open Scope string_scope.
 Open Scope list_scope.
 
-Lemma unflatten_noop : forall sep self,
-  forallb (fun k => negb (C04_Tree.str_contains sep k)) (node_keys self) = true -> fst (unflatten_in sep self) = self.
-Proof.
-  intros sep [|[] bs dv nm es] H; try reflexivity. cbn [unflatten_in]. destruct sep as [|a sep']; [reflexivity|].
-  cbn [node_keys] in H. revert H. generalize (Node KTd bs dv nm es) as self. generalize (map fst es) as keys.
-  induction keys as [|k r IH]; intros self H; [reflexivity|].
-  cbn [forallb] in H. apply andb_true_iff in H as [H1 H2]. apply negb_true_iff in H1.
-  rewrite seq_steps_cons. rewrite H1. now apply IH.
-Qed.
-
 Lemma node_step_coh : forall o self p d,
   coh p d self = true -> node_scope p o = true -> clean0 self o = true -> coh p d (fst (node_step o self)) = true.
 Proof.
@@ -31,14 +21,14 @@ Proof.
   - destruct (through_nt key _); [exact Hc|]. now apply del_path_coh.
   - now apply pop_path_coh.
   - now apply popitem_coh.
-  - destruct new as [|k [|k2 r]]; try discriminate. now apply rename_key_coh.
-  - unfold b2o. cbn [fst]. apply set_bs_coh; auto.
+  - now apply rename_key_coh.
+  - unfold b2o. cbn [fst]. now apply set_bs_coh.
   - unfold b2o. cbn [fst]. now apply set_names_coh.
   - unfold b2o. cbn [fst]. now apply refine_coh.
   - unfold b2o. cbn [fst]. apply andb_true_iff in Hk as [Hk1 Hk2]. apply auto_bs_coh; auto.
     destruct k as [kk|]; [|exact I]. split; [now apply Nat.leb_le|now apply Nat.leb_le].
   - now apply flatten_in_coh.
-  - rewrite unflatten_noop; auto.
+  - now apply unflatten_in_coh.
   - now apply select_in_coh.
   - now apply exclude_in_coh.
   - destruct (through_nt key _); [exact Hc|]. now apply create_nested_coh.
@@ -128,7 +118,7 @@ Proof.
     apply IH; [now apply step_coh|exact H3].
 Qed.
 
-(* ---- the full statement is false of the faithful model: witnesses of D101, D102, D103 ---- *)
+(* ---- the former witnesses of D101, D102, D103 (false of the model before the repairs fixes/C01/*.diff) ---- *)
 Definition w101_t : tree := Node KTd [3] None None [("n", Node KTd [3] None None [])].
 Definition w101_o : op := OAt [] (OBatchSize false [4]).
 Definition w102_t : tree := Node KTd [3] None None [("e", Node KTd [3] None None []); ("a", Leaf [3] CPU)].
@@ -136,21 +126,14 @@ Definition w102_o : op := OAt [] (OBatchSize false [4; 5]).
 Definition w103_t : tree := Node KTd [3] None None [("a", Leaf [3] CPU); ("n", Node KTd [3; 4] None None [])].
 Definition w103_o : op := OAt [] (ORename ["a"] ["n"; "a"] false).
 
-Lemma refuted_D101 : Coherent w101_t /\ in_scopeb w101_t w101_o = true /\ snd (step w101_t w101_o) = Done
-                     /\ coherentb (fst (step w101_t w101_o)) = false.
-Proof. vm_compute. auto. Qed.
-Lemma refuted_D102 : Coherent w102_t /\ in_scopeb w102_t w102_o = true /\ snd (step w102_t w102_o) = Raised
-                     /\ coherentb (fst (step w102_t w102_o)) = false.
-Proof. vm_compute. auto. Qed.
-Lemma refuted_D103 : Coherent w103_t /\ in_scopeb w103_t w103_o = true /\ snd (step w103_t w103_o) = Done
-                     /\ coherentb (fst (step w103_t w103_o)) = false.
-Proof. vm_compute. auto. Qed.
-
-Lemma step_refuted : exists t o, Coherent t /\ in_scopeb t o = true /\ ~ Coherent (fst (step t o)).
-Proof.
-  exists w101_t, w101_o. destruct refuted_D101 as (H1 & H2 & _ & H4). repeat split; auto.
-  unfold Coherent. rewrite H4. discriminate.
-Qed.
+(* D101: the empty nested node follows the new batch size; D102: the rejected assignment changes nothing;
+   D103: the destination node refuses the ill-shaped entry (the old key is kept, nothing is stored) *)
+Lemma repaired_D101 : step w101_t w101_o = (Node KTd [4] None None [("n", Node KTd [4] None None [])], Done).
+Proof. vm_compute. reflexivity. Qed.
+Lemma repaired_D102 : step w102_t w102_o = (w102_t, Raised).
+Proof. vm_compute. reflexivity. Qed.
+Lemma repaired_D103 : step w103_t w103_o = (w103_t, Raised).
+Proof. vm_compute. reflexivity. Qed.
 
 (* ---- rejection: a tensor whose leading dims are not the batch size is refused and nothing is stored ---- *)
 Lemma validate_leaf : forall sk bs dv nm es sh d,
